@@ -133,7 +133,7 @@ func (lg *locGen) op() map[string]interface{} {
 	switch k {
 	case 0:
 		o["op"] = "addfact"
-		if r.Intn(5) != 0 || lg.profile == "durable" || lg.profile == "cache" {
+		if r.Intn(5) != 0 || lg.profile == "durable" || lg.profile == "cache" || lg.profile == "expiry" {
 			// (durable: a generated id of an add that fails at the storage is not reported back)
 			o["id"] = id
 		}
@@ -169,7 +169,7 @@ func (lg *locGen) op() map[string]interface{} {
 		o["fact"] = f
 	case 1:
 		o["op"] = "addrule"
-		if r.Intn(8) != 0 || lg.profile == "durable" || lg.profile == "cache" {
+		if r.Intn(8) != 0 || lg.profile == "durable" || lg.profile == "cache" || lg.profile == "expiry" {
 			o["id"] = id
 		}
 		rule := rulePat(lg.pattern(lg.events[r.Intn(len(lg.events))]))
